@@ -642,6 +642,24 @@ pub async fn deleverage(w: &mut World, m: &mut Mon, r: &mut R, lev: &Lev, g: usi
         let i = ix::init_liq_record(acct, risk.pubkey());
         let _ = w.exec(m, &[i], &[&risk]).await;
     }
+    // two brackets opened in one transaction, only the second one closed: the first account must not
+    // stay under the risk admin's control
+    {
+        let others: Vec<usize> = (0..w.accts.len()).filter(|a| *a != lev.acct && w.accts[*a].group == g).collect();
+        if !others.is_empty() {
+            let b2 = pick(r, &others);
+            let k2 = w.accts[b2].key;
+            if !w.shadow.contains_key(&ix::liq_record_key(&k2)) {
+                let i = ix::init_liq_record(k2, risk.pubkey());
+                let _ = w.exec(m, &[i], &[&risk]).await;
+            }
+            let (first, second, fi, si) = if r.gen_bool(0.5) { (acct, k2, lev.acct, b2) } else { (k2, acct, b2, lev.acct) };
+            let ixs = vec![ix::start_deleverage(gk, first, risk.pubkey(), w.risk_metas(fi, None, None)), ix::start_deleverage(gk, second, risk.pubkey(), w.risk_metas(si, None, None)), ix::end_deleverage(gk, second, risk.pubkey(), w.risk_metas(si, None, None))];
+            let o = w.exec(m, &ixs, &[&risk]).await;
+            m.r.count("scen.two_deleverage_starts_one_end_attempts");
+            m.r.count(if o.ok() { "scen.two_deleverage_starts_one_end_committed" } else { "scen.two_deleverage_starts_one_end_rejected" });
+        }
+    }
     let rounds = r.gen_range(1..5);
     for k in 0..rounds {
         if k > 0 && r.gen_bool(0.3) {
